@@ -20,6 +20,7 @@ package main
 
 import (
 	"bytes"
+	"context"
 	"encoding/json"
 	"flag"
 	"fmt"
@@ -68,6 +69,7 @@ type Scenario struct {
 	Seed      int64    `json:"seed"`
 	Case      bool     `json:"case,omitempty"`    // small scenario: emit a Coq correspondence case
 	Script    []int    `json:"script,omitempty"`  // scripted ring run: 1 = Set, 0 = Release
+	Level     string   `json:"level,omitempty"`   // logr adapters: level of the back end (debug | info | warn | error)
 	Ctor      string   `json:"ctor,omitempty"`    // membership script: combined | multi | writers
 	Init      int      `json:"init,omitempty"`    // membership script: length of the caller's slice
 	Cap       int      `json:"cap,omitempty"`     // ... and its capacity
@@ -435,12 +437,20 @@ type built struct {
 	async    bool
 	noSink   bool
 	overlaps func() int
+	Ls       []logs.Loggers // several instances of the same constructor alive at once: producer p uses Ls[p % len(Ls)]
 }
 
 func all(mid) bool       { return true }
 func onlyErr(m mid) bool { return m.S == 'e' }
 func onlyOut(m mid) bool { return m.S == 'o' }
 func none(mid) bool      { return false }
+
+// byLevel: what a sink behind a levelled back end must hold, given what the BACK END ITSELF says it emits
+func byLevel(s *sink, outEmitted, errEmitted bool) *sink {
+	f := func(m mid) bool { return (m.S == 'o' && outEmitted) || (m.S == 'e' && errEmitted) }
+	s.required, s.allowed = f, f
+	return s
+}
 
 func jsonSinkFromRec(name string, w *recWriter) *sink {
 	return &sink{name: name, format: "json", read: w.bytes, required: all, allowed: all}
@@ -562,41 +572,45 @@ func buildSimple(kind string, sc Scenario, idx int) (logs.Loggers, []*sink, erro
 		return l, []*sink{jsonSinkFromRec("jsonmulti-w1", w1), jsonSinkFromRec("jsonmulti-w2", w2)}, nil
 	case "zap":
 		w := &recWriter{}
-		core := zapcore.NewCore(zapcore.NewJSONEncoder(zap.NewProductionEncoderConfig()), zapcore.Lock(zapcore.AddSync(w)), zap.DebugLevel)
+		lvl := map[string]zapcore.Level{"": zap.DebugLevel, "debug": zap.DebugLevel, "info": zap.InfoLevel, "warn": zap.WarnLevel, "error": zap.ErrorLevel}[sc.Level]
+		core := zapcore.NewCore(zapcore.NewJSONEncoder(zap.NewProductionEncoderConfig()), zapcore.Lock(zapcore.AddSync(w)), lvl)
 		l, err := logs.NewZapLogger(zap.New(core), "lsrc")
 		if err != nil {
 			return nil, nil, err
 		}
-		return l, []*sink{jsonSinkFromRec(fmt.Sprintf("zap#%d", idx), w)}, nil
+		// logr's Info(V=0) is zap's Info level, logr's Error is zap's Error level: ask the core what it emits
+		return l, []*sink{byLevel(jsonSinkFromRec(fmt.Sprintf("zap#%d@%s", idx, sc.Level), w), core.Enabled(zapcore.InfoLevel), core.Enabled(zapcore.ErrorLevel))}, nil
 	case "logrus":
 		w := &recWriter{}
 		ll := logrus.New()
 		ll.SetOutput(w)
 		ll.SetFormatter(&logrus.JSONFormatter{})
-		ll.SetLevel(logrus.DebugLevel)
+		ll.SetLevel(map[string]logrus.Level{"": logrus.DebugLevel, "debug": logrus.DebugLevel, "info": logrus.InfoLevel, "warn": logrus.WarnLevel, "error": logrus.ErrorLevel}[sc.Level])
 		l, err := logs.NewLogrusLogger(ll, "lsrc")
 		if err != nil {
 			return nil, nil, err
 		}
-		return l, []*sink{jsonSinkFromRec(fmt.Sprintf("logrus#%d", idx), w)}, nil
+		return l, []*sink{byLevel(jsonSinkFromRec(fmt.Sprintf("logrus#%d@%s", idx, sc.Level), w), ll.IsLevelEnabled(logrus.InfoLevel), ll.IsLevelEnabled(logrus.ErrorLevel))}, nil
 	case "hclog":
 		w := &recWriter{}
-		hl := hclog.New(&hclog.LoggerOptions{Output: w, JSONFormat: true, Level: hclog.Debug})
+		hl := hclog.New(&hclog.LoggerOptions{Output: w, JSONFormat: true, Level: map[string]hclog.Level{"": hclog.Debug, "debug": hclog.Debug, "info": hclog.Info, "warn": hclog.Warn, "error": hclog.Error}[sc.Level]})
 		l, err := logs.NewHclogLogger(hl, "lsrc")
 		if err != nil {
 			return nil, nil, err
 		}
-		hs := jsonSinkFromRec(fmt.Sprintf("hclog#%d", idx), w)
+		hs := jsonSinkFromRec(fmt.Sprintf("hclog#%d@%s", idx, sc.Level), w)
 		hs.noLevel = true
-		return l, []*sink{hs}, nil
+		// hclogr sends logr's V(0) at hclog's ERROR level (and errors at Error level): both streams are emitted
+		// whenever hclog emits errors
+		return l, []*sink{byLevel(hs, hl.IsError(), hl.IsError())}, nil
 	case "slog":
 		w := &recWriter{}
-		sl := slog.New(slog.NewJSONHandler(w, nil))
+		sl := slog.New(slog.NewJSONHandler(w, &slog.HandlerOptions{Level: map[string]slog.Level{"": slog.LevelDebug, "debug": slog.LevelDebug, "info": slog.LevelInfo, "warn": slog.LevelWarn, "error": slog.LevelError}[sc.Level]}))
 		l, err := logs.NewSlogLogger(sl, "lsrc")
 		if err != nil {
 			return nil, nil, err
 		}
-		return l, []*sink{jsonSinkFromRec(fmt.Sprintf("slog#%d", idx), w)}, nil
+		return l, []*sink{byLevel(jsonSinkFromRec(fmt.Sprintf("slog#%d@%s", idx, sc.Level), w), sl.Enabled(context.Background(), slog.LevelInfo), sl.Enabled(context.Background(), slog.LevelError))}, nil
 	case "noop":
 		l, err := logs.NewNoopLogger("lsrc")
 		return l, nil, err
@@ -608,6 +622,26 @@ func buildSimple(kind string, sc Scenario, idx int) (logs.Loggers, []*sink, erro
 			return nil, nil, err
 		}
 		return l, []*sink{{name: "fileonly", format: "json", read: fileReader(path), required: all, allowed: all}}, nil
+	case "file":
+		// NewFileLogger also prints to the process's stderr through its own logrus instance (not checked here)
+		path := filepath.Join(sc.Dir, fmt.Sprintf("file-%d-%d.log", sc.Seed, idx))
+		_ = os.Remove(path)
+		l, err := logs.NewFileLogger(path, "lsrc")
+		if err != nil {
+			return nil, nil, err
+		}
+		return l, []*sink{{name: fmt.Sprintf("file#%d", idx), format: "json", read: fileReader(path), required: all, allowed: all}}, nil
+	case "asyncm":
+		// an asynchronous logger that cannot overflow (ring larger than the traffic): everything must arrive
+		ow, ew := &recWriter{}, &recWriter{}
+		l, err := logs.NewAsynchronousLoggers(ow, ew, 4096, 0, "lsrc", "src0", &dropRec{})
+		if err != nil {
+			return nil, nil, err
+		}
+		return l, []*sink{
+			{name: fmt.Sprintf("asyncm-out#%d", idx), format: "async", read: ow.bytes, required: onlyOut, allowed: onlyOut},
+			{name: fmt.Sprintf("asyncm-err#%d", idx), format: "async", read: ew.bytes, required: onlyErr, allowed: onlyErr},
+		}, nil
 	case "fromloggers":
 		// Loggers -> logr.Logger -> Loggers round trip over a plain string logger
 		inner, err := logs.NewPlainStringLogger()
@@ -700,6 +734,60 @@ func build(sc Scenario) (*built, error) {
 		s.required = none
 		b.sinks = []*sink{s}
 		b.closeFn = func() { _ = l.Close() }
+	case "twin", "twincomp":
+		// two instances of the SAME constructor alive at once; twin: producer p uses instance p%2 and each sink must
+		// hold exactly the messages sent to ITS logger; twincomp: both are members of one composite and each sink
+		// holds every message exactly once
+		base := sc.Members[0]
+		var inst []logs.Loggers
+		var closers []logs.Loggers
+		for i := 0; i < 2; i++ {
+			var l logs.Loggers
+			var ss []*sink
+			var err error
+			if base == "std" {
+				l, err = logs.NewStdLogger("lsrc")
+				if i == 0 {
+					ss = []*sink{
+						{name: "std-stdout", format: "std", src: "lsrc", read: fileReader(sc.Stdout), required: onlyOut, allowed: onlyOut},
+						{name: "std-stderr", format: "std", src: "lsrc", read: fileReader(sc.Stderr), required: onlyErr, allowed: onlyErr},
+					}
+				}
+			} else {
+				l, ss, err = buildSimple(base, sc, i)
+			}
+			if err != nil {
+				return nil, err
+			}
+			if sc.Kind == "twin" && base != "std" {
+				i := i
+				for _, sk := range ss {
+					req, alw := sk.required, sk.allowed
+					sk.required = func(m mid) bool { return m.P%2 == i && req(m) }
+					sk.allowed = func(m mid) bool { return m.P%2 == i && alw(m) }
+				}
+			}
+			inst = append(inst, l)
+			b.sinks = append(b.sinks, ss...)
+			if base == "asyncm" {
+				closers = append(closers, l)
+			}
+		}
+		b.closeFn = func() {
+			for _, c := range closers {
+				_ = c.Close()
+			}
+		}
+		if sc.Kind == "twin" {
+			b.Ls = inst
+			b.L = inst[0]
+		} else {
+			m, err := logs.NewCombinedLoggers(inst...)
+			if err != nil {
+				return nil, err
+			}
+			b.L, b.multi = m, m
+		}
 	case "multi", "combined":
 		var members []logs.Loggers
 		for i, mk := range sc.Members {
@@ -794,14 +882,18 @@ func runOnce(sc Scenario, res *WResult, emitCase bool) (ob runObs) {
 				}
 			}()
 			<-start
+			L := b.L
+			if len(b.Ls) > 0 {
+				L = b.Ls[p%len(b.Ls)]
+			}
 			for _, o := range progs[p] {
 				switch o.Op {
 				case opLog:
-					b.L.Log(token(sc.Seed, mid{p, 'o', o.K}))
+					L.Log(token(sc.Seed, mid{p, 'o', o.K}))
 				case opErr:
-					b.L.LogError(token(sc.Seed, mid{p, 'e', o.K}))
+					L.LogError(token(sc.Seed, mid{p, 'e', o.K}))
 				case opSetSource:
-					_ = b.L.SetLogSource([]string{"srcA", "srcB"}[(p+o.K)%2])
+					_ = L.SetLogSource([]string{"srcA", "srcB"}[(p+o.K)%2])
 				case opAppend:
 					_ = b.multi.Append(b.appendL[o.K])
 				}
@@ -1613,6 +1705,9 @@ func runScenario(sc Scenario, res *WResult) {
 	res.Evals++
 	ob := runOnce(sc, res, sc.Case)
 	kind := sc.Kind
+	if kind == "twin" || kind == "twincomp" {
+		kind += "-" + sc.Members[0]
+	}
 	res.Counts["run:"+kind]++
 	res.Counts["messages"] += ob.sent
 	if ob.hang {
@@ -1825,6 +1920,19 @@ func scenarios(r *h.Run) map[string][]Scenario {
 	}
 	for i := 0; i < r.N(30, 90); i++ {
 		add(Scenario{Kind: "async", Producers: 2 + rng.Intn(4), Msgs: 2 + rng.Intn(12), Mix: "log", Ring: []int{1, 2, 3, 4, 8, 64}[rng.Intn(6)], PollMs: rng.Intn(2), SlowUs: rng.Intn(200), Case: true})
+	}
+	// logr adapters over back ends at every level: what must arrive follows from the back end's own level
+	for _, k := range []string{"zap", "logrus", "hclog", "slog"} {
+		for _, lvl := range []string{"debug", "info", "warn", "error"} {
+			add(Scenario{Kind: k, Producers: 2 + rng.Intn(5), Msgs: 20 + rng.Intn(20), Mix: "all", Level: lvl})
+		}
+	}
+	// several instances of the same constructor alive at once, used side by side and inside one composite
+	for _, base := range []string{"file", "fileonly", "json", "string", "plainstring", "std", "zap", "logrus", "hclog", "slog", "asyncm", "quiet", "fromloggers"} {
+		add(Scenario{Kind: "twin", Producers: 4 + 2*rng.Intn(3), Msgs: 20 + rng.Intn(20), Mix: "all", Members: []string{base}})
+		if base != "std" { // two std loggers in one composite legitimately write every line twice to the one stdout
+			add(Scenario{Kind: "twincomp", Producers: 2 + rng.Intn(5), Msgs: 20 + rng.Intn(20), Mix: "all", Members: []string{base}})
+		}
 	}
 	// membership scripts: caller-owned slices with spare capacity, mutated / reused / appended to after construction
 	for _, ctor := range []string{"combined", "multi", "writers"} {
